@@ -22,7 +22,7 @@ BROOT = os.environ.get('VERIF_BUILD', os.path.join(VERIF, 'build'))
 BIN = os.environ.get('C20_BIN_DIR', os.path.join(BROOT, 'asan', 'rc'))
 RUN = os.path.join(BIN, 'run')      # replaced by a per-invocation sub directory in main()/do_replay()
 REPLAYS = os.path.join(VERIF, 'replays', 'C20')
-EVIDENCE = os.environ.get('C20_EVIDENCE', os.path.join(VERIF, 'evidence', 'C20.json'))
+EVIDENCE = os.environ.get('C20_EVIDENCE', os.path.join(os.environ.get('VERIF_EVIDENCE_DIR', os.path.join(VERIF, 'evidence')), 'C20.json'))
 KNOWN = os.environ.get('VERIF_KNOWN_FINDINGS', os.path.join(VERIF, 'known_findings.jsonl'))
 SCHEMA = '/root/.vp/EVIDENCE.schema.json'
 PROP = 'C20'
